@@ -75,7 +75,7 @@ func contentKey(p *pwPath, v ssa.Value) (string, ssa.Value, bool) {
 type childRender struct {
 	ok        bool
 	why       string
-	blockWith int // number of BlockWith calls
+	blockWith int  // number of BlockWith calls
 	boundData bool // an entry ranged from the data parameter was set on the child
 	setOnHelp []invocation
 }
@@ -150,7 +150,9 @@ func contentRulesSSA(r *Run, onceRule, keyRule, dataRule, scopeRule string) {
 		return
 	}
 	cfFn, coFn := w.SSAFunc(cf), w.SSAFunc(co)
-	inline := func(caller, callee *ssa.Function) bool { return callee.Pkg == cfFn.Pkg && !funcHasLoop(callee) || callee.Pkg == cfFn.Pkg && callee.Parent() == nil }
+	inline := func(caller, callee *ssa.Function) bool {
+		return callee.Pkg == cfFn.Pkg && !funcHasLoop(callee) || callee.Pkg == cfFn.Pkg && callee.Parent() == nil
+	}
 	paramOfType := func(fn *ssa.Function, pred func(types.Type) bool) ssa.Value {
 		for _, p := range fn.Params {
 			if pred(p.Type()) {
